@@ -23,6 +23,33 @@ def r_symbols_reach_preprocessor(r, prog):
     r.floor(1)
 
 
+def r_failed_file_leaves_no_names(r, prog):
+    """A file that fails to parse leaves members in the AST whose containers were dropped with the parser's stack (members are added before
+    their containers are complete). Nothing may find them by name afterwards - Diagnostics::into_updated, which always runs, resolves the
+    scope of every lint by name and reads the parents of what it finds (a dangling pointer for an orphan). Two things close that: the lints
+    of the failed file lose their scopes, and the name table is put back as it was before that file - on every path from the has_errors
+    edge to the next file."""
+    pf = prog.fn('slicec::parsers::parse_files')
+    parse = [k for k in pf.calls() if k.name() == 'parse_file' and not pf.blocks[k.bb].get('cleanup')]
+    if len(parse) != 1 or loop_of(pf, parse[0].bb) is None:
+        raise AnchorMissing('the call of parse_file inside the loop of parse_files')
+    head, body = loop_of(pf, parse[0].bb)
+    from helpers import branches_on_call
+    errs = [b for b in branches_on_call(pf, lambda k: k.name() == 'has_errors') if pf.dominates(parse[0].bb, b['bb']) and b['bb'] in body]
+    if not errs:
+        r.finding('failed-file-not-detected', pf.span, 'parse_files does not test has_errors() after parsing a file')
+        r.floor(1)
+        return
+    b = errs[0]
+    for what, name in (('the lints of the failed file lose their scopes', 'clear_scopes'), ('the name table is put back as it was before the failed file', 'set_lookup_table')):
+        cs = [k.bb for k in pf.calls() if k.name() == name and not pf.blocks[k.bb].get('cleanup')]
+        if cs and must_pass(pf, b['true'], [head], cs, within=body):
+            r.ok('after a file that failed to parse, %s (on every path to the next file)' % what)
+        else:
+            r.finding('failed-file-leaves-names:%s' % name, pf.span, 'after a file that failed to parse, parse_files does not call %s on every path to the next file: a lint (of this or of another file) can be resolved to a member whose container no longer exists, and reading its parent is a use after free' % name)
+    r.floor(2)
+
+
 def r_symbols_per_file(r, prog):
     pfs = prog.fn('slicec::parsers::parse_files')
     pf = prog.fn('slicec::parsers::parse_file')
